@@ -284,8 +284,11 @@ DoEveryOp(vs, br, x, o, w) ==
 \* x[i] = w on a list value (0-based i); the declared type is checked after the update
 DoIndexAssign(vs, br, x, i, w) ==
     LET cur == vs[x].val
-    IN IF cur.t \in {"str", "vec", "bytes", "dict", "stream", "inst"} THEN Res("unspec", vs, br)
-       ELSE IF cur.t # "list" \/ i >= Len(cur.v) \/ i < -Len(cur.v) THEN Res("raise", vs, br)
+    IN IF cur.t \in {"str", "vec", "bytes", "dict", "inst"} THEN Res("unspec", vs, br)
+       \* a stream is forced into a list by the update (so a variable declared `stream` cannot keep it:
+       \* the late check refuses); what a failing update leaves of the stream is not specified
+       ELSE IF cur.t = "stream" /\ (i >= Len(cur.v) \/ i < -Len(cur.v)) THEN Res("unspec", vs, br)
+       ELSE IF cur.t \notin {"list", "stream"} \/ i >= Len(cur.v) \/ i < -Len(cur.v) THEN Res("raise", vs, br)
        ELSE LET j == IF i < 0 THEN Len(cur.v) + i + 1 ELSE i + 1
                 new == List([cur.v EXCEPT ![j] = w])
             IN IF IsType(vs[x].ty, new) THEN Res("ok", SetVal(vs, x, new), br \ {x})
